@@ -186,6 +186,9 @@ func checkCase(c *Case) (err error) {
 		case "body":
 			ctx.Writer().WriteHeader(http.StatusAccepted)
 			_, _ = ctx.Writer().Write([]byte("partial"))
+		case "switching":
+			// 101 is a final header: the response is started, although no body byte follows
+			ctx.Writer().WriteHeader(http.StatusSwitchingProtocols)
 		case "flush":
 			// the response is started by a flush alone: the implicit 200 header goes out
 			_ = ctx.Writer().FlushError()
@@ -356,7 +359,7 @@ func checkCase(c *Case) (err error) {
 			final = code
 		}
 	}
-	started := c.Progress == "header" || c.Progress == "body"
+	started := c.Progress == "header" || c.Progress == "body" || c.Progress == "switching"
 	if c.Progress == "flush" && !abort {
 		// started by a flush: exactly the implicit 200, nothing appended
 		if len(w.codes) != 1 || w.codes[0] != http.StatusOK || w.body.Len() != 0 {
@@ -371,8 +374,12 @@ func checkCase(c *Case) (err error) {
 		if c.Progress == "body" {
 			wantBody = "partial"
 		}
-		if final != http.StatusAccepted || w.body.String() != wantBody {
-			return fmt.Errorf("%sthe response had been started (202, %q) and must be left untouched: status codes %v body %q", desc, wantBody, w.codes, w.body.String())
+		wantCode := http.StatusAccepted
+		if c.Progress == "switching" {
+			wantCode = http.StatusSwitchingProtocols
+		}
+		if final != wantCode || w.body.String() != wantBody || len(w.h["Content-Type"]) != 0 {
+			return fmt.Errorf("%sthe response had been started (%d, %q) and must be left untouched: status codes %v body %q Content-Type %q", desc, wantCode, wantBody, w.codes, w.body.String(), w.h["Content-Type"])
 		}
 	case broken:
 		if final != 0 || w.body.Len() != 0 {
@@ -470,7 +477,7 @@ func genCase(t *rapid.T) *Case {
 	c := &Case{
 		Kind:     gen.Pick(t, []string{"route", "route", "route-ts", "noroute", "nomethod", "options"}, "kind"),
 		Value:    gen.Pick(t, values, "value"),
-		Progress: gen.Pick(t, []string{"none", "none", "informational", "header", "body", "flush"}, "progress"),
+		Progress: gen.Pick(t, []string{"none", "none", "informational", "header", "body", "flush", "switching"}, "progress"),
 		Where:    "handler",
 	}
 	if c.Kind == "route" || c.Kind == "route-ts" {
@@ -531,7 +538,7 @@ func TestPanics(t *testing.T) {
 func TestExhaustive(t *testing.T) {
 	hs := []Header{{Name: "Authorization", Value: "tokAAA111q", Secret: true}, {Name: "Cookie", Value: "tokBBB222q", Secret: true}, {Name: "Accept", Value: "tokCCC333q"}}
 	for _, v := range values {
-		for _, p := range []string{"none", "informational", "header", "body", "flush"} {
+		for _, p := range []string{"none", "informational", "header", "body", "flush", "switching"} {
 			for _, kw := range [][2]string{{"route", "handler"}, {"route", "inner-mw-before"}, {"route", "inner-mw-after"}, {"route", "updates-body"}, {"route", "view-body"}, {"route-ts", "handler"}, {"route-ts", "inner-mw-before"}, {"route-ts", "inner-mw-after"}, {"noroute", "handler"}, {"nomethod", "handler"}, {"options", "handler"}, {"noroute", "updates-body"}} {
 				for cut := 0; cut <= 3; cut++ {
 					if kw[1] != "updates-body" && cut > 0 {
